@@ -132,6 +132,9 @@ def selection_verbatim(ctx, fx, H):
 def h2(ctx, fx, H):
     npush = 0
     selection_verbatim(ctx, fx, H)
+    # the JSON form carries the selected list and nothing else, whatever the selection (also the empty one): rule shared with C10.F3
+    import c10
+    c10.f3(common.RelabelCtx(ctx, "C06.H2", keep=("json-disclosures",)), fx)
     if H.field_out is not None:
         if H.field_out["emptied"]:
             ctx.ok("C06.H2", H.present, "selection-emptied", "the selection is written into hs_disclosures through an out-parameter, and the field is emptied before on every path", line=H.field_out["line"])
